@@ -863,7 +863,10 @@ def rewrite(toks, frm, to, counts, mode="once"):
     if mode == "opt" and hits <= 1:
         counts["rewrite"] = counts.get("rewrite", 0) + hits
         return out
-    if hits == 0 or (mode == "once" and hits != 1):
+    # a declared rewrite is a syntax-directed normalisation: when the working tree holds MORE occurrences than the
+    # annotated text did (a change added a second call of the same shape) every one of them is normalised the same
+    # way and Verus decides; only a pattern that no longer occurs at all leaves the region undecided
+    if hits == 0:
         raise AnchorError("rewrite pattern `%s` matched %d times (expected %s)" % (frm, hits, "1" if mode == "once" else ">=1"))
     counts["rewrite"] = counts.get("rewrite", 0) + hits
     return out
